@@ -24,6 +24,13 @@
 (* python index/slice normalisation against its set-theoretic definition,  *)
 (* the phase reconstruction identity of ArbitraryPhase, ...).              *)
 (*                                                                         *)
+(* The reference is a pure function of the term: READING IS NOT AN           *)
+(* OPERATION.  There is no state besides the point itself, so every history *)
+(* of reads (samples, indices, slices, first/last value, integral, ==) of   *)
+(* one waveform must return the values below; the harness enforces this on  *)
+(* the implementation by scribbling over everything a read hands out and    *)
+(* reading again (clause read_is_pure).                                     *)
+(*                                                                         *)
 (* Families "dur", "win" and "maxval" only ENUMERATE inputs (class,         *)
 (* duration, area, beta, maximum value): Blackman and Kaiser windows are   *)
 (* real-analysis objects, their contracts are evaluated by the harness on  *)
